@@ -53,6 +53,8 @@ func init() {
 		mutation{"checksum-not-enforced", "kv/aof/log.go", "		err = fmt.Errorf(\"log entry checksum does not match, possibly corrupted log\")\n		return", "		err = fmt.Errorf(\"log entry checksum does not match, possibly corrupted log\")", "replay-guard"},
 		mutation{"skip-undecodable", "kv/aof/log.go", "		if err := entry.UnmarshalVT(buf); err != nil {\n			return fmt.Errorf(\"error deserializing log at index %d: %w\", i, err)\n		}", "		if err := entry.UnmarshalVT(buf); err != nil {\n			continue\n		}", "replay-guard"},
 		mutation{"replay-from-two", "kv/aof/log.go", "	for i := uint64(1); i <= index; i++ {", "	for i := uint64(2); i <= index; i++ {", "replay-order"},
+		mutation{"version-by-if", "kv/aof/log.go", "	switch entry.GetVersion() {\n	case proto.LogVersion_V1:\n		// uncompressed\n		err = mut.UnmarshalVT(entry.Data)\n	default:\n		err = fmt.Errorf(\"unknown log version: %s\", entry.GetVersion())\n	}\n	return", "	if entry.GetVersion() != proto.LogVersion_V1 {\n		return fmt.Errorf(\"unknown log version: %s\", entry.GetVersion())\n	}\n	// uncompressed\n	err = mut.UnmarshalVT(entry.Data)\n	return", "!replay-guard"},
+		mutation{"unknown-version-silently-ok", "kv/aof/log.go", "	default:\n		err = fmt.Errorf(\"unknown log version: %s\", entry.GetVersion())\n	}", "	}", "replay-guard"},
 		mutation{"unknown-version-accepted", "kv/aof/log.go", "	default:\n		err = fmt.Errorf(\"unknown log version: %s\", entry.GetVersion())", "	default:\n		err = mut.UnmarshalVT(entry.Data)", "replay-guard"},
 	)
 	addSelfTests("C23",
@@ -411,15 +413,18 @@ func runC21(c *Ctx) {
 		}
 		return true
 	})
+	// the versions under which decodeEntry decodes (path facts at each decode site: a
+	// switch case and an `if version == V1` are read alike)
 	accepted := map[string]bool{}
-	ast.Inspect(de.Body, func(n ast.Node) bool {
-		if cc, ok := n.(*ast.CaseClause); ok {
-			for _, e := range cc.List {
-				accepted[constName(de, e)] = true
-			}
+	for _, u := range de.Calls(false, func(call *ast.CallExpr) bool {
+		se, ok := call.Fun.(*ast.SelectorExpr)
+		return ok && se.Sel.Name == "UnmarshalVT"
+	}) {
+		pos, _ := de.FactsAt(u).EqConsts(de, func(e ast.Expr) bool { return strings.HasSuffix(de.Prov(e), ".GetVersion()") })
+		for _, k := range pos {
+			accepted[k] = true
 		}
-		return true
-	})
+	}
 	c.Ob("codec-agreement", "version-written-is-accepted", al.Decl.Pos(), verW != "" && accepted[verW], "appendLog writes "+verW+"; decodeEntry accepts "+setStr(accepted))
 	okSum := sumCall != nil && dataW != "" && sumW == dataW && al.Prov(sumCall.Args[1]) == "global:kv/aof.crcTable"
 	c.Ob("codec-agreement", "checksum-over-stored-data", al.Decl.Pos(), okSum, fmt.Sprintf("the checksum is computed over the very buffer stored as Data (data: %s, checksummed: %s) with crcTable", dataW, sumW))
@@ -549,9 +554,13 @@ func runC22(c *Ctx) {
 			s := types_ExprString(be)
 			return strings.Contains(s, "GetChecksum") && strings.Contains(s, "Checksum") && ((be.Op == token.NEQ && !truth) || (be.Op == token.EQL && truth))
 		})
-		okVer := fs.Cmp(func(e, tag ast.Expr, truth bool, fa *Fact) bool {
-			return tag != nil && truth && strings.HasPrefix(constName(de, e), "LogVersion_") && strings.HasSuffix(de.Prov(tag), ".GetVersion()")
-		})
+		vpos, _ := fs.EqConsts(de, func(e ast.Expr) bool { return strings.HasSuffix(de.Prov(e), ".GetVersion()") })
+		okVer := false
+		for _, k := range vpos {
+			if strings.HasPrefix(k, "LogVersion_") {
+				okVer = true
+			}
+		}
 		c.Ob("replay-guard", "decodeEntry#decode-after-checksum-ok", call.Pos(), okSum, "the mutation is decoded only when the checksum matched")
 		c.Ob("replay-guard", "decodeEntry#decode-only-known-version", call.Pos(), okVer, "the mutation is decoded only under a known version case")
 		c.Ob("replay-guard", "decodeEntry#decodes-entry-data", call.Pos(), strings.HasSuffix(de.Prov(call.Args[0]), ".Data") || strings.HasSuffix(de.Prov(call.Args[0]), ".GetData()"), "the decoded bytes are the entry's data")
@@ -595,37 +604,46 @@ func runC22(c *Ctx) {
 			c.Ob("replay-guard", "decodeEntry#mismatch-aborts", ifs.Pos(), assigned && !reachedDecode && len(exits) > 0, "on a checksum mismatch an error is set and the function returns without decoding")
 			return true
 		})
-		// default case sets an error
-		ast.Inspect(de.Body, func(n ast.Node) bool {
-			cc, ok := n.(*ast.CaseClause)
-			if !ok || cc.List != nil {
-				return true
-			}
-			okDef := false
-			decodes := false
-			for _, st := range cc.Body {
-				if as, ok := st.(*ast.AssignStmt); ok && len(as.Lhs) == 1 && types_ExprString(as.Lhs[0]) == named.Name {
-					if cl, ok := as.Rhs[0].(*ast.CallExpr); ok && de.IsCall(cl, "fmt.Errorf", "errors.New") {
-						okDef = true
+		// an unknown version is an error: with the edges on which the version equals a
+		// recognised constant removed, and stopping at assignments of a fresh error to the
+		// result, no exit of decodeEntry is reachable once the checksum matched
+		isVer := func(e ast.Expr) bool { return strings.HasSuffix(de.Prov(e), ".GetVersion()") }
+		isErrAssign := func(m ast.Node) bool {
+			switch x := m.(type) {
+			case *ast.AssignStmt:
+				if len(x.Lhs) == 1 && len(x.Rhs) == 1 && types_ExprString(x.Lhs[0]) == named.Name {
+					if cl, ok := x.Rhs[0].(*ast.CallExpr); ok && de.IsCall(cl, "fmt.Errorf", "errors.New") {
+						return true
 					}
 				}
-				ast.Inspect(st, func(m ast.Node) bool {
-					for _, u := range um {
-						if m == ast.Node(u) {
-							decodes = true
-						}
+			case *ast.ReturnStmt:
+				if len(x.Results) == 1 {
+					if cl, ok := x.Results[0].(*ast.CallExpr); ok && de.IsCall(cl, "fmt.Errorf", "errors.New") {
+						return true
 					}
-					if cl, ok := m.(*ast.CallExpr); ok {
-						if s, ok := cl.Fun.(*ast.SelectorExpr); ok && s.Sel.Name == "UnmarshalVT" {
-							decodes = true
-						}
-					}
-					return true
-				})
+				}
 			}
-			c.Ob("replay-guard", "decodeEntry#unknown-version-rejected", cc.Pos(), okDef && !decodes, "an unknown version yields an error and is not decoded")
-			return true
+			return false
+		}
+		_, silent := de.Reach(nil, isErrAssign, func(b *cfgBlock, si int) bool {
+			for _, at := range de.edgeAtoms(b, si) {
+				if at.tag != nil && isVer(at.tag) && at.truth && strings.HasPrefix(constName(de, at.e), "LogVersion_") {
+					return true
+				}
+				if be, ok := at.e.(*ast.BinaryExpr); ok && at.tag == nil {
+					eq := be.Op == token.EQL && at.truth || be.Op == token.NEQ && !at.truth
+					if eq && (isVer(be.X) && strings.HasPrefix(constName(de, be.Y), "LogVersion_") || isVer(be.Y) && strings.HasPrefix(constName(de, be.X), "LogVersion_")) {
+						return true
+					}
+				}
+			}
+			return false
 		})
+		var at token.Pos = de.Decl.Pos()
+		if len(silent) > 0 && silent[0].Ret != nil {
+			at = silent[0].Ret.Pos()
+		}
+		c.Ob("replay-guard", "decodeEntry#unknown-version-rejected", at, len(silent) == 0, fmt.Sprintf("an entry whose version is none of the recognised constants leaves decodeEntry with an error (%d exit(s) reachable without one)", len(silent)))
 	}
 	// order 1..LastIndex, no skip, failures abort
 	var loop *ast.ForStmt
